@@ -300,6 +300,14 @@ impl Lex {
     }
 }
 
+#[cfg(feature = "verif_hooks")]
+impl Lex {
+    /// number of bytes not yet consumed by the lexer
+    pub fn verif_unread(&self) -> usize {
+        self.buf.len() - self.pos
+    }
+}
+
 pub fn token_filename(sources: &[(Xstr, Xstr)], token: &Xsubstr) -> Option<Xstr> {
     sources
         .iter()
